@@ -56,6 +56,12 @@ struct WkdRun {
 
     KeyM newkey(size_t cap) {
         KeyM k; k.cap = cap; size_t fs = R.sz(JV_SZ_WK_FREESLOT);
+        // object re-use: one time in five the destination is a SecretKey object (struct and array) that still holds an earlier key of this
+        // system - what a C or Go caller gets when it keeps one object for successive results. Its array has the old capacity.
+        const KeyM* stale = nullptr;
+        if (!keys.empty() && (keys.size() * 3 + (size_t) env.step) % 5 == 0) { const KeyM& o = keys[((size_t) env.step * 11 + keys.size()) % keys.size()]; if (o.sk.p && !o.tainted) stale = &o; }
+        int stale_l = stale ? R.jv_wk_sk_l(stale->sk) : 0; if (stale && (stale_l < 0 || (size_t) stale_l > stale->cap)) stale = nullptr;
+        if (stale) { k.cap = std::max(cap, (size_t) stale_l); cap = k.cap; }
         k.cap_alloc = R.info.sanitized ? cap : std::max(cap, (size_t) sys.l) + 2;
         k.sk.alloc(R.sz(JV_SZ_WK_SK));
         if (k.cap_alloc) k.barr.alloc(k.cap_alloc * fs, 0xEE);
@@ -65,6 +71,7 @@ struct WkdRun {
             if (old.barr.p) { size_t n = std::min(old.cap * fs, k.cap * fs); memcpy(k.barr.p, old.barr.p, n); env.count("fault:slot_array_allocated_from_recycled_memory"); }
         }
         R.jv_wk_sk_init(k.sk, k.barr.p);
+        if (stale) { if (stale_l) memcpy(k.barr.p, stale->barr.p, (size_t) stale_l * fs); R.jv_wk_sk_stale_from(k.sk, stale->sk, stale_l); env.count("fault:destination_key_object_still_holds_an_earlier_key"); }
         return k;
     }
     void check_canary(const KeyM& k, const char* what) {
@@ -167,7 +174,7 @@ struct WkdRun {
             if (idx >= (uint32_t) sys.l || k.pat[idx].st != ST_HIDDEN) continue;
             std::vector<MAttr> L = list_of_pattern(k.pat); L.push_back({idx, Bn(6), false});
             std::sort(L.begin(), L.end(), [](const MAttr& a, const MAttr& b) { return a.idx < b.idx; });
-            JAttrs ja(L, false); KeyM child = newkey((size_t) sys.l + 1); child.cap = (size_t) sys.l + 1;
+            JAttrs ja(L, false); KeyM child = newkey((size_t) sys.l + 1);
             call_begin(1); R.jv_wk_nd_qualifykey(view, child.sk, sys.params, k.sk, &ja.l);
             GTv m, out; call_begin(77); R.jv_wk_random_gt(view, m.b, jv_rand_cb);
             Buf ct(R.sz(JV_SZ_WK_CT)); call_begin(78); R.jv_wk_encrypt(view, ct, m.b, sys.params, &ja.l, jv_rand_cb);
@@ -261,7 +268,7 @@ struct WkdRun {
         std::vector<Slot> cur; std::vector<MAttr> from;
         resolve(keys[pi].pat, op.s, 0, false, from, cur);
         size_t pl = count_free(keys[pi].pat);
-        KeyM k = newkey(std::max((size_t) sys.l - from.size(), pl)); k.cap = std::max((size_t) sys.l - from.size(), pl);
+        KeyM k = newkey(std::max((size_t) sys.l - from.size(), pl));
         { JAttrs ja(from, false); call_begin(1); R.jv_wk_nd_qualifykey(view, k.sk, sys.params, keys[pi].sk, &ja.l); }
         k.rho = keys[pi].rho; k.pat = cur; k.ndchild = true; k.ndparent = (int) pi; k.ndlist = from;
         keys.push_back(std::move(k)); size_t ki = keys.size() - 1;
@@ -515,7 +522,7 @@ struct WkdRun {
         std::vector<MAttr> L = list_of_pattern(pk->pat); L.push_back({(uint32_t) hidden, v, false});
         std::sort(L.begin(), L.end(), [](const MAttr& a, const MAttr& b) { return a.idx < b.idx; });
         JAttrs ja(L, false);
-        KeyM k = newkey((size_t) sys.l + 1); k.cap = (size_t) sys.l + 1; k.tainted = true; k.pat = pk->pat; k.rho = pk->rho;
+        KeyM k = newkey((size_t) sys.l + 1); k.tainted = true; k.pat = pk->pat; k.rho = pk->rho;
         const char* hn = "";
         if (how == 0) { hn = "qualifykey"; call_begin((uint64_t) op.arg(0)); R.jv_wk_qualifykey(view, k.sk, sys.params, pk->sk, &ja.l, jv_rand_cb); }
         else if (how == 1) { hn = "nondelegable_qualifykey"; call_begin(1); R.jv_wk_nd_qualifykey(view, k.sk, sys.params, pk->sk, &ja.l); }
